@@ -414,6 +414,10 @@ func (cx *Ctx) checkErrDiscipline(r *Report, fns []*ssa.Function) int {
 				}
 				nonNil, tested := fx.errBranches(e)
 				bad := ""
+				if !discarded && !tested && fx.nilTestReturned(e) {
+					// `return probe(ctx) != nil`: the verdict is handed out as the function's boolean result
+					continue
+				}
 				if discarded || !tested {
 					bad = "error of " + calleeName(call) + " ignored in a function that cannot report it"
 				} else if aps, okp := fx.atomPaths(fn, 4096); okp {
